@@ -67,31 +67,43 @@ def rule_UNIT(ctx):
         good = {pr: 0 for pr in PAIRS}
         bad = {}
         for p in paths:
-            loc = {}
+            # every declaration of the names (an inner block may declare its own ssig2, csig2): pair them by position
+            decls = {}
             for key, v in p.env.items():
-                if isinstance(v, Poly) and key[0] == 'v' and len(key) == 2:
-                    loc[key[1].split('@')[0]] = v
-            if not all(a in loc and b in loc for a, b in PAIRS):
+                if isinstance(v, Poly) and key[0] == 'v' and len(key) == 2 and '@' in key[1]:
+                    nm, pos = key[1].split('@', 1)
+                    try:
+                        line = int(pos.split(':')[0])
+                    except ValueError:
+                        continue
+                    decls.setdefault(nm, []).append((line, v))
+            found = []
+            for a, b in PAIRS:
+                for la, va in decls.get(a, []):
+                    near = [(abs(lb - la), vb) for lb, vb in decls.get(b, []) if abs(lb - la) <= 2]
+                    if near:
+                        found.append(((a, b), va, min(near, key=lambda x: x[0])[1]))
+            if not found:
                 continue
             npaths += 1
             syms = set()
-            for v in loc.values():
-                syms |= v.symbols()
+            for _, va, vb in found:
+                syms |= va.symbols() | vb.symbols()
             units = list(MEMBER_UNITS)
             for s in syms:
                 if s.startswith('sincosd(') and s.endswith('.out1'):
                     units.append((s, s[:-1] + '2'))
                 if s.startswith('sin('):
                     units.append((s, 'cos(' + s[4:]))
-            for a, b in PAIRS:
-                if 'tiny_' in loc[a].show() or 'tiny_' in loc[b].show():
+            for (a, b), va, vb in found:
+                if 'tiny_' in va.show() or 'tiny_' in vb.show():
                     continue              # the degeneracy fix replaces the pair on purpose
                 nchecks += 1
-                d = reduce_units(_hyp_reduce(loc[a] * loc[a] + loc[b] * loc[b] - Poly.const(1), p.pure_args), units)
+                d = reduce_units(_hyp_reduce(va * va + vb * vb - Poly.const(1), p.pure_args), units)
                 if d.is_zero():
                     good[(a, b)] += 1
                 else:
-                    bad.setdefault((a, b), (d, loc[a], loc[b]))
+                    bad.setdefault((a, b), (d, va, vb))
         for pr in PAIRS:
             ok = pr not in bad and good[pr] > 0
             res.ob(ok, {'fn': f.q, 'pair': list(pr), 'paths': good[pr]})
